@@ -194,3 +194,35 @@ Theorem C08_renaming_program : forall w r z z' prog,
   | _, _ => False
   end.
 Proof. exact renaming_ast_gen. Qed.
+
+(** "... available to the enclosing scope as scopename.name with the same value, WHETHER IT IS
+    REFERENCED BEFORE OR AFTER the scope": end to end on [assemble_nodes], for the node list code
+    generation produces for a named scope.  After label resolution — hence throughout emission, which
+    never changes a symbol — the enclosing scope holds [s.x] = the run address of the label [x], so
+    a data directive or operand naming [s.x] evaluates to it wherever it stands, before or after
+    the scope.  ([qsym]: x is not redefined in the scope, s.x not redefined in the parent;
+    decidable on the node list.)  The exact extent of "before" for the other kinds of reference is
+    pinned by the examples of Proofs/ForwardExport.v: a symbol definition [y = s.x] before the scope
+    works for labels and [:=] symbols of the scope, not for its [=] symbols; [y := s.x] before the
+    scope never works (evaluated at code generation). *)
+From A816 Require Import Proofs.ProgramProofs Proofs.ReplayProofs Proofs.ForwardExport.
+Theorem C08_export_before_and_after : forall w r pre b1 b2 post x s c p l l1 l2 scp out,
+  let sc := r_scopes r in
+  let ns := pre ++ NScope :: b1 ++ NLabel x :: b2 ++ NPop :: post in
+  let q := s ++ dot ++ x in
+  syms_wf r -> r_cur r = 0%nat ->
+  replay sc pre (r_cur r) 0 = Some (p, l) -> c = S l ->
+  nth_error sc c = Some scp -> s_parent scp = Some p -> s_kind scp = SNamed s -> (p < c)%nat ->
+  replay sc b1 c c = Some (c, l1) -> replay sc b2 c l1 = Some (c, l2) ->
+  qsym run_label sc x c b2 c l1 -> qsym run_label sc x c post p l2 ->
+  qsym run_symbol sc x c (pre ++ NScope :: b1 ++ NLabel x :: b2) 0 0 ->
+  qsym run_symbol sc q p post p l2 ->
+  assemble_nodes w r ns = Ok out ->
+  exists rB aB lB r' addrs,
+    label_run w (set_cur_last r (r_cur r) 0) (pre ++ NScope :: b1) (r_reloc r) = Ok (rB, aB, lB) /\
+    resolve_labels w r ns = Ok (r', addrs) /\
+    sym_at r' p q = Some (Some (a_val aB)) /\ sym_at (o_final out) p q = Some (Some (a_val aB)).
+Proof. exact label_exported_at_emission. Qed.
+Theorem C08_emission_keeps_symbols : forall w ns st addrs st', emit_loop w st ns addrs = Ok st' ->
+  forall i q, sym_at (e_r st') i q = sym_at (e_r st) i q.
+Proof. exact emit_keeps_symbols. Qed.
